@@ -90,6 +90,20 @@ def gen_font(rng):
         if rng.random() < 0.5:
             anchors += [(k, coord(rng), coord(rng)) for k in rng.sample(KEYS, rng.randint(1, 2))]   # mark-to-mark
         glyphs.append({"name": nmame, "unicodes": [u], "width": 0, "anchors": anchors, "cat": "mark"})
+    script_groups = None
+    features = None
+    if indic and rng.random() < 0.5:
+        # the feature file declares Devanagari only, the font also holds encoded, anchored Bengali glyphs: those are
+        # outside the abvm/blwm set (their script is not declared) and must be served by mark/mkmk like any other glyph
+        keys_b = rng.sample(KEYS, 2)
+        glyphs.append({"name": "ka-beng", "unicodes": [0x995], "width": 500, "cat": "base",
+                       "anchors": [(k, coord(rng), coord(rng)) for k in keys_b]})
+        glyphs.append({"name": "ga-beng", "unicodes": [0x997], "width": 500, "cat": "base",
+                       "anchors": [(keys_b[0], coord(rng), coord(rng))]})
+        glyphs.append({"name": "candrabindu-beng", "unicodes": [0x981], "width": 0, "cat": "mark",
+                       "anchors": [("_" + keys_b[0], coord(rng), coord(rng))]})
+        script_groups = {g["name"]: ("beng" if g["name"].endswith("-beng") else "deva") for g in glyphs}
+        features = "languagesystem DFLT dflt;\nlanguagesystem dev2 dflt;\nlanguagesystem deva dflt;\n"
     if rng.random() < 0.5 and not indic:
         nmame, _ = rng.choice(LIGAS)
         ncomp = nmame.count("_") + 1
@@ -110,7 +124,9 @@ def gen_font(rng):
     if rng.random() < 0.4:
         lib["public.openTypeCategories"] = {g["name"]: g["cat"] for g in glyphs}
     return {"glyphs": glyphs, "lib": lib, "quantization": rng.choice([1, 1, 5, 10]), "group": rng.random() < 0.5,
-            "features": "languagesystem DFLT dflt;\nlanguagesystem latn dflt;\n" if rng.random() < 0.3 else ""}
+            "script_groups": script_groups,
+            "features": features if features is not None else
+            ("languagesystem DFLT dflt;\nlanguagesystem latn dflt;\n" if rng.random() < 0.3 else "")}
 
 
 def explore(ctx):
@@ -189,6 +205,11 @@ def explore(ctx):
                     return False
                 return cats.get(m) == "mark" and cats.get(b) in ("base", "ligature", "mark")
             obs = [o for o in obs if role_ok(o[0], o[1])]
+        if desc.get("script_groups"):
+            # pairs across the abvm / non-abvm divide are outside the checked domain (observation O2)
+            sg = desc["script_groups"]
+            obs = [o for o in obs if sg.get(o[0]) == sg.get(o[1])]
+            ctx.klass("indic font with glyphs of an undeclared Indic script")
         g_obs = G.lst([G.tup(G.tup(G.tup(G.s(b), G.s(m)), G.opt(None if k is None else G.z(k), "Z")),
                              G.opt(None if off is None else G.tup(G.z(off[0]), G.z(off[1])), "(Z * Z)"))
                        for b, m, k, off in obs], "attach_obs")
